@@ -258,7 +258,28 @@ func H_C14_api() {
 	verif.Assume(err == nil)
 	var e error
 	path := ""
-	switch verif.Choice("call", 10) {
+	switch verif.Choice("call", 16) {
+	case 10:
+		_, e = c.Int("a.x.c", -1, opts...) // intermediate name missing
+		path = "a.x"
+	case 11:
+		_, e = c.Int("a.b.c", -1, opts...) // below a primitive: the requested setting does not exist
+		path = "a.b.c"
+	case 12:
+		_, e = c.CountField("zz", opts...)
+		path = "zz"
+	case 13:
+		_, e = c.CountField("a.zz", opts...)
+		path = "a.zz"
+	case 14:
+		// a reference nobody can resolve, counted
+		c2, err := ucfg.NewFrom(map[string]interface{}{"r": "${missing}"}, append([]ucfg.Option{ucfg.VarExp}, opts...)...)
+		verif.Assume(err == nil)
+		_, e = c2.CountField("r", append([]ucfg.Option{ucfg.VarExp}, opts...)...)
+		path = "r"
+	case 15:
+		e = c.SetInt("a.b.c", -1, 1, opts...) // write below a primitive
+		path = "a.b"
 	case 0:
 		_, e = c.Int("a.b", -1, opts...)
 		path = "a.b"
